@@ -1,0 +1,5 @@
+//go:build !verif
+
+package fscache
+
+func verifStep(point, key string) {}
